@@ -398,73 +398,58 @@ func ruleKeyBytes(c *Ctx) {
 	if !c.Floor("KEYBYTES", "cipher specs in the SDK", len(specs), 4) {
 		return
 	}
-	n, ok := constInt(c, "service.bytesForKeyFinding")
+	n, ok := firstBytesLen(c)
 	if !ok {
-		c.Undecided("KEYBYTES", "anchor:bytesForKeyFinding", "-", "constant service.bytesForKeyFinding not found")
+		c.Undecided("KEYBYTES", "anchor:first-bytes-length", "-", "the TCP key finder does not read into a buffer of constant length")
 		return
 	}
 	for _, s := range specs {
 		req, prov := s.SaltSize+2+s.TagSize, s.SaltSize+2+2*s.TagSize
 		c.Check("KEYBYTES", "spec:"+s.Name, s.Pos, s.SaltSize > 0 && s.TagSize > 0 && req <= n && n <= prov,
-			fmt.Sprintf("required=%d <= bytesForKeyFinding=%d <= provided=%d holds for salt=%d tag=%d||bytesForKeyFinding=%d does not satisfy salt+2+tag=%d <= n <= salt+2+2*tag=%d for cipher spec %s: either the key cannot be authenticated from the bytes read, or a valid minimal first chunk is shorter than what the server waits for", req, n, prov, s.SaltSize, s.TagSize, n, req, prov, s.Name))
+			fmt.Sprintf("required=%d <= bytes read for key finding=%d <= provided=%d holds for salt=%d tag=%d||the %d bytes read for key finding do not satisfy salt+2+tag=%d <= n <= salt+2+2*tag=%d for cipher spec %s: either the key cannot be authenticated from the bytes read, or a valid minimal first chunk is shorter than what the server waits for", req, n, prov, s.SaltSize, s.TagSize, n, req, prov, s.Name))
 	}
-	// the buffer read before the search has exactly that constant length, filled by io.ReadFull, and is what the search gets
-	for _, f := range c.P.FnsIn("service") {
-		for _, cl := range eng.Calls(f) {
-			call, ok := cl.(*ssa.Call)
-			if !ok || eng.CalleeName(&call.Call) != "io.ReadFull" {
-				continue
-			}
-			snap := false
-			for _, c2 := range eng.Calls(f) {
-				if eng.MethodName(c2.Common()) == "SnapshotForClientIP" {
-					snap = true
-				}
-			}
-			if !snap {
-				continue
-			}
-			buf := c.P.Resolve(call.Call.Args[1])
-			okLen := false
-			switch ms := buf.(type) {
+	// the buffer read before the search has constant length, is filled by io.ReadFull, and is what the search gets
+	for _, kf := range findKeyFinders(c) {
+		f, call := kf.f, kf.rf
+		okLen, _ := c.P.AllFrom(call.Call.Args[1], eng.Deep, func(v ssa.Value) bool {
+			switch x := v.(type) {
 			case *ssa.MakeSlice:
-				if k, ok := eng.ConstInt(ms.Len); ok && k == n {
-					okLen = true
-				}
-			case *ssa.Slice:
-				// make([]byte, const) is lowered to new [const]byte + slice
-				if al, ok := ms.X.(*ssa.Alloc); ok && ms.Low == nil {
-					if arr, ok := al.Type().(*types.Pointer).Elem().Underlying().(*types.Array); ok && arr.Len() == n {
-						if ms.High == nil {
-							okLen = true
-						} else if k, ok := eng.ConstInt(ms.High); ok && k == n {
-							okLen = true
-						}
-					}
-				}
-			}
-			c.CheckAt("FIXEDREAD", short(f)+":reads-exactly-bytesForKeyFinding", call, okLen, "the key finder does not read into a buffer of constant length bytesForKeyFinding with io.ReadFull: the amount read before deciding depends on the client")
-			// the ReadFull dominates the search call, whose first-bytes argument is the same buffer
-			for _, c2 := range eng.Calls(f) {
-				sc, ok := c2.(*ssa.Call)
+				_, isC := eng.ConstInt(x.Len)
+				return isC
+			case *ssa.Alloc:
+				pt, ok := x.Type().(*types.Pointer)
 				if !ok {
-					continue
+					return false
 				}
-				for _, sl := range findSearchLoops(c) {
-					for _, callee := range repoCallees(c, sc) {
-						if callee == sl.fn {
-							c.CheckAt("FIXEDREAD", short(f)+":read-before-search", sc, eng.Dominates(call, sc), "the key search runs before the fixed-size read completed")
-							same := false
-							for _, a := range sc.Call.Args {
-								if c.P.Resolve(a) == buf {
-									same = true
-								}
-							}
-							c.CheckAt("FIXEDREAD", short(f)+":search-gets-the-bytes-read", sc, same, "the key search is not given the buffer that io.ReadFull filled")
-						}
-					}
+				_, isArr := pt.Elem().Underlying().(*types.Array)
+				return isArr
+			}
+			return false
+		})
+		// ... and whole: no sub-slice between the allocation and the read
+		whole := true
+		for _, o := range c.P.Origins(call.Call.Args[1], deepF) {
+			if sl, ok := o.(*ssa.Slice); ok {
+				_, fromArr := sl.X.(*ssa.Alloc)
+				if !fromArr || sl.Low != nil {
+					whole = false
 				}
 			}
+		}
+		c.CheckAt("FIXEDREAD", short(f)+":reads-a-fixed-number-of-bytes", call, okLen && whole, "the key finder does not read into a whole buffer of constant length with io.ReadFull: the amount read before deciding depends on the client")
+		if kf.search != nil {
+			sc := kf.search
+			okBefore, _ := kf.reg.BeforeDeep(func(ins ssa.Instruction) bool { return ins == ssa.Instruction(call) }, func(ins ssa.Instruction) bool { return ins == ssa.Instruction(sc) })
+			c.CheckAt("FIXEDREAD", short(f)+":read-before-search", sc, okBefore, "the key search runs before the fixed-size read completed")
+			same := false
+			for _, a := range sc.Call.Args {
+				if kf.sameBuf(c, a) {
+					same = true
+				}
+			}
+			c.CheckAt("FIXEDREAD", short(f)+":search-gets-the-bytes-read", sc, same, "the key search is not given the buffer that io.ReadFull filled")
+		} else {
+			c.Undecided("FIXEDREAD", short(f)+":search-call", c.P.Pos(f.Pos()), "the key finder calls no function that performs the trial decryption")
 		}
 	}
 }
